@@ -345,7 +345,10 @@ char *fgets(char *buf, int size, FILE *fp)
         return (char *) 0;
     }
     vg_fg_budget--;
-    __CPROVER_havoc_slice(buf, (size_t) size);
+    if (__CPROVER_POINTER_OFFSET(buf) == 0 && __CPROVER_OBJECT_SIZE(buf) == (size_t) size)
+        __CPROVER_havoc_object(buf);            /* same effect, cheaper encoding */
+    else
+        __CPROVER_havoc_slice(buf, (size_t) size);
     size_t r = nondet_size_t();
     __CPROVER_assume(r < (size_t) size);
     buf[r] = 0;
@@ -571,8 +574,8 @@ int v_snprintf(char *d, size_t size, int unused)
  *  loop 3  for (; fgets(...) && !strrchr(buff, '\n'););          rest of an over-long line: mid-line throughout
  * measure: every chunk costs budget; a push (at most one per chunk) is paid by the chunk that caused it */
 #define VCA_PARSE_ASSIGNS \
-    __CPROVER_assigns(__CPROVER_object_whole(buff), spifconf_vars, fstate, fstate_idx, fstate_cnt, __CPROVER_object_whole(fstate), \
-                      ctx_state, ctx_state_idx, ctx_state_cnt, __CPROVER_object_whole(ctx_state), VG_ALL)
+    __CPROVER_assigns(__CPROVER_object_whole(buff), spifconf_vars, fstate_idx, __CPROVER_object_whole(fstate), \
+                      vg_sp, vg_ct, vg_ev, vg_fg, vg_tf, vg_st)
 #define VCA_PARSE_L1 VCA_PARSE_ASSIGNS \
     __CPROVER_loop_invariant(PARSE_INV && vg_pl_calls == vg_deliverable && !vg_fg_mid) \
     __CPROVER_decreases(2 * vg_fg_budget + fstate_idx)
